@@ -124,6 +124,54 @@ theorem register_two (m : Tbl) (parent field : String) (a b : Loc) (h : get m (k
     · rw [hg] at hb2; cases hb2; simpa using h2
     · rw [hg] at hb2; cases hb2
 
+theorem get_concat1_self (m : Tbl) (key : String) (v : List Loc) :
+    get (concat1 m key v) key = some ((get m key).getD [] ++ v) := by
+  unfold concat1
+  cases hg : get m key with
+  | none => simp [get_set_self]
+  | some prev => simp [get_set_self]
+
+theorem get_concat1_other (m : Tbl) (key key' : String) (v : List Loc) (hne : key' ≠ key) :
+    get (concat1 m key v) key' = get m key' := by
+  unfold concat1
+  cases hg : get m key with
+  | none => simp only; exact get_set_other m key key' v hne
+  | some prev => simp only; exact get_set_other m key key' _ hne
+
+/-- **`Concat` appends, key by key**: after `m.Concat(other)` a field's list is what `m` had followed by what `other`
+    has — the services keep the order in which their tables were concatenated (`other`'s keys are distinct: it is a
+    Go map) -/
+theorem get_concat (other : Tbl) (hnd : (other.map (·.1)).Nodup) (m : Tbl) (key : String) :
+    get (concat m other) key =
+      match get m key, other.lookup key with
+      | some a, some b => some (a ++ b)
+      | some a, none => some a
+      | none, some b => some b
+      | none, none => none := by
+  induction other generalizing m with
+  | nil => simp [concat]; cases get m key <;> rfl
+  | cons kv rest ih =>
+    obtain ⟨k, v⟩ := kv
+    simp only [List.map_cons, List.nodup_cons] at hnd
+    obtain ⟨hk, hrest⟩ := hnd
+    have hstep : concat m ((k, v) :: rest) = concat (concat1 m k v) rest := by simp [concat, List.foldl_cons]
+    rw [hstep, ih hrest]
+    by_cases hkey : key = k
+    · subst hkey
+      have hl : rest.lookup key = none := by
+        rw [List.lookup_eq_none_iff]
+        intro p hp
+        simp only [bne_iff_ne, ne_eq]
+        intro e
+        apply hk
+        exact List.mem_map.2 ⟨p, hp, e.symm⟩
+      rw [get_concat1_self, hl]
+      simp only [List.lookup_cons, beq_self_eq_true]
+      cases get m key <;> simp
+    · have hb : (key == k) = false := by simp only [beq_eq_false_iff_ne, ne_eq]; exact hkey
+      rw [get_concat1_other m k key v hkey]
+      simp only [List.lookup_cons, hb]
+
 /-- a key that was never registered is an error, not an empty success -/
 theorem urlFor_unregistered (parent field : String) : ∃ e, urlFor [] parent field = .error e := ⟨_, rfl⟩
 
